@@ -1,6 +1,7 @@
 import FFVerif.Props.C08
 import FFVerif.Pins.pinIntegrate
 import FFVerif.Pins.pinIdentityElementIndex
+import FFVerif.Pins.C08_infidelity_source_shape
 #print axioms FFVerif.C08.integrate_spec
 #print axioms FFVerif.C08.integrate_linear
 #print axioms FFVerif.C08.integrate_nonneg
@@ -15,6 +16,6 @@ import FFVerif.Pins.pinIdentityElementIndex
 #print axioms FFVerif.C08.infidelity_traceless_branch
 #print axioms FFVerif.C08.total_infidelity_nonneg
 #print axioms FFVerif.C08.pulse_correlations_sum_to_total
-#print axioms FFVerif.C08.infidelity_source_shape
 #print axioms FFVerif.Pins.pinIntegrate
 #print axioms FFVerif.Pins.pinIdentityElementIndex
+#print axioms FFVerif.C08.infidelity_source_shape
